@@ -80,6 +80,16 @@ static arr_cmplx make_coeffs(vh::Rng& r, int m, CoefKind k, bool cplx) {
 
 static arr_cmplx make_input(vh::Rng& r, int n, int kind, bool cplx) {
     arr_cmplx x(n);
+    if (kind == 3) {
+        //burst - exact silence - burst: whole blocks of exact zeros between two active stretches
+        const int a = std::max(1, n / 7);
+        for (int i = 0; i < n; ++i) {
+            if (i < a || i >= n - a) {
+                x[i] = cplx ? cmplx_t{r.gauss(), r.gauss()} : cmplx_t{r.gauss(), 0};
+            }
+        }
+        return x;
+    }
     for (int i = 0; i < n; ++i) {
         double s = 1.0;
         if (kind == 2) {
@@ -339,9 +349,9 @@ int main(int argc, char** argv) {
         }
         const int blk = fftlen - m + 1;
         //input lengths around the block boundaries and a few others
-        std::vector<int> ns = {0, 1, m - 1, m, blk - 1, blk, blk + 1, 2 * blk, 2 * blk + 1, 3 * blk - 1};
-        if (thorough && m <= 64) {
-            ns.push_back(5 * blk + 3);
+        std::vector<int> ns = {0, 1, m - 1, m, blk - 1, blk, blk + 1, 2 * blk, 2 * blk + 1, 3 * blk - 1, 4 * blk + 1};
+        if (m <= 64) {
+            ns.push_back(7 * blk + 3);
         }
         for (size_t ni = 0; ni < ns.size(); ++ni) {
             for (int cplx = 0; cplx < 2; ++cplx) {
@@ -350,7 +360,7 @@ int main(int argc, char** argv) {
                 }
                 vh::Rng r = vh::rng_for("fir", (uint64_t(mi) * 100 + ni) * 2 + cplx);
                 const CoefKind ck = CoefKind(r.below(5));
-                const int ik = int(r.below(3));
+                const int ik = int(r.below(4));
                 check_fir(m, ns[ni], ck, ik, cplx != 0, r);
                 if (!thorough && m > 64) {
                     continue;
@@ -358,7 +368,7 @@ int main(int argc, char** argv) {
                 //every coefficient kind for the small lengths
                 if (m <= 16) {
                     for (int c2 = 0; c2 < 5; ++c2) {
-                        check_fir(m, ns[ni], CoefKind(c2), int(r.below(3)), cplx != 0, r);
+                        check_fir(m, ns[ni], CoefKind(c2), int(r.below(4)), cplx != 0, r);
                     }
                 }
             }
@@ -374,11 +384,11 @@ int main(int argc, char** argv) {
             vh::Rng r = vh::rng_for("long", i);
             const int m = int(r.range(2, thorough ? 300 : 60));
             const int n = thorough ? 100000 : 20000;
-            check_fir(m, n, RANDOM, int(r.below(3)), r.coin(), r);
+            check_fir(m, n, RANDOM, int(r.below(4)), r.coin(), r);
             vh::obs_max("longest_input", n);
         }
     }
-    vh::sample("FirFilter/FftFilter: coefficient lengths 2..64 and 2^k-2..2^k+2 (k=7..10) x input lengths {0,1,m-1,m,B-1,B,B+1,2B,2B+1,3B-1} (B = FFT block) x real/complex");
+    vh::sample("FirFilter/FftFilter: coefficient lengths 2..64 and 2^k-2..2^k+2 (k=7..10) x input lengths {0,1,m-1,m,B-1,B,B+1,2B,2B+1,3B-1,4B+1,7B+3} (B = FFT block), inputs random / impulsive / 1e+-12 dynamic range / burst-silence-burst x real/complex");
 
     //xcorr: all pairs to 48
     for (int n1 = 1; n1 <= 48; ++n1) {
